@@ -113,6 +113,19 @@ func generate(w *mon.W) {
 			do(pqlref.Print(gen.Wide(kind, n), pqlref.Layout{Mode: 1}).Src)
 		}
 	}
+	// every parameter name of the parameter maps used at every kind of position
+	names := map[string]bool{}
+	for _, pm := range gen.ParamMaps {
+		for k := range pm {
+			names[k] = true
+		}
+	}
+	for k := range names {
+		for _, tmpl := range []string{"let z = %s; T | take 1", "let z = %s; T | where a == z", "let z = -%s; T | where z[1] == -z", "T | where a == %s", "T | where a == -%s", "T | take %s", "T | top %s by a",
+			"T | extend %s", "T | project %s", "T | where %s[1] == 2", "T | join (U) on $left.a == %s", "T | summarize count() by %s", "T | sort by %s", "T | where strcat(%s, %s) in (%s)", "T | where not(%s) and isnull(%s)"} {
+			do(strings.ReplaceAll(tmpl, "%s", k))
+		}
+	}
 	// The known finding: exponential let expansion (demonstrated, expected to
 	// take the worker down; the coordinator attributes it by key).
 	do("let a = 1;" + strings.Repeat("let a = a + a;", 40) + "T | where a")
@@ -204,11 +217,16 @@ func Check(s string, r *mon.R) {
 		// judged by C14; recorded here only
 		r.Count("zero_options_differ_from_nil", 1)
 	}
-	pm := gen.ParamMaps[1+int(hash(s)%uint32(len(gen.ParamMaps)-1))]
-	_, _, o = mon.Compile(s, pm)
-	if o.Anomalous() {
-		fail(fmt.Sprintf("Compile with parameters %v", pm), o)
-		return
+	pms := []map[string]string{gen.ParamMaps[1+int(hash(s)%uint32(len(gen.ParamMaps)-1))]}
+	if len(s) < 200 {
+		pms = gen.ParamMaps[1:] // short inputs: every parameter map
+	}
+	for _, pm := range pms {
+		_, _, o = mon.Compile(s, pm)
+		if o.Anomalous() {
+			fail(fmt.Sprintf("Compile with parameters %q", pm), o)
+			return
+		}
 	}
 	r.MaxOf("input_bytes", int64(len(s)))
 	if len(toks) >= 2 {
